@@ -111,6 +111,10 @@ BREAKS = [
                 ([PL], "                teams[team_index][player_index].sigma = math.sqrt(\n                    player.sigma * player.sigma + tau_squared\n                )",
                  "                if id(player) not in _INFLATED:\n                    _INFLATED.add(id(player))\n                    teams[team_index][player_index].sigma = math.sqrt(\n                        player.sigma * player.sigma + tau_squared\n                    )"),
                 ([PL], "        return final_result", "        _INFLATED.clear()\n        return final_result")]),
+    dict(id="c14_module_level_result_buffer", targets=["C14"],
+         edits=[([BTF], "class BradleyTerryFullRating:", "_RESULT_BUFFER: List[Any] = []\n\n\nclass BradleyTerryFullRating:", 1),
+                ([BTF], "        result = []\n", "        result = _RESULT_BUFFER\n        result.clear()\n", 1),
+                ([BTF], "            result.append(intermediate_result_per_team)\n        return result", "            result.append(intermediate_result_per_team)\n        return list(result)")]),
     dict(id="c15_revert_tau_truthiness_one_copy", targets=["C15", "C14"], edits=[([BTP], "tau = tau if tau is not None else self.tau", "tau = tau if tau else self.tau")]),
     dict(id="c15_limit_false_ignored", targets=["C15"], edits=[([PL], "if limit_sigma is None:\n            limit_sigma = self.limit_sigma", "if not limit_sigma:\n            limit_sigma = self.limit_sigma")]),
     # ---------------------------------------------------------------- C16
